@@ -246,7 +246,11 @@ def run(rep, tier, rng):
             lmeta.append(pl)
             lcases.append(C.read_case(code_l, pbuf, w["shx"]["buf"], [("it", -1)]))
             lmeta.append(pl + " (complete index)")
-        limpl = stages.correspondence(rep, "crash_long", dev, lcases, "crash(shape of more than 1024 points)", model=(tier == "thorough"))
+        # through the model only a handful of these states (its reader is quadratic in the record size); all of them through
+        # the implementation and the oracle
+        nmod = 6 if tier == "thorough" else 0
+        limpl = (stages.correspondence(rep, "crash_long", dev, lcases[-nmod:], "crash(shape of more than 1024 points)") if nmod else [])
+        limpl = stages.correspondence(rep, "crash_long_i", dev, lcases[:len(lcases) - nmod], "crash(shape of more than 1024 points)", model=False) + limpl
         for c, pl, r in zip(lcases, lmeta, limpl):
             rd = C.parse_read(r, [("it", -1)])
             msg = "panic or dead process on a crash state" if (r in ([2], [-2], [-5]) or rd.get("panic")) else None
